@@ -5,8 +5,8 @@ here = os.path.dirname(os.path.dirname(os.path.abspath(__file__)))
 PARTIAL = " Partial: "
 CHECKS = {
  "C18": dict(
-   text="Coq theorems over an executable model of RateLimiter.evaluate_rules/is_limited: for every rule list, deque and arrival time the model refines a sliding-window-log specification (C18_refines), from which the window bound (C18_window), justified refusal (C18_refusal_justified), exemption (C18_exempt) and bounded state (C18_bounded) follow for all arrival sequences; the model is tied to the code on every run by differential execution (decisions and deque lengths step by step) and the translated interval table.",
-   note="Trusted: Coq kernel, extraction (ExtrOcamlBasic), harness with injected integral clock; the lifting from one deque to the whole scope scan (address/global/ip order) is covered by the correspondence and the executable statement, not yet by a theorem.",
+   text="Coq theorems over an executable model of RateLimiter.evaluate_rules/is_limited: for every rule list, deque and arrival time the model refines a sliding-window-log specification (C18_refines), lifted to is_limited as a whole over every configuration and arrival sequence (C18_limiter_refines_spec), from which the window bound (C18_window), justified refusal (C18_refusal_justified), exemption (C18_exempt) and bounded state (C18_bounded) follow for all arrival sequences; the model is tied to the code on every run by differential execution (decisions and deque lengths step by step) and the translated interval table.",
+   note="Trusted: Coq kernel, extraction (ExtrOcamlBasic), harness with injected integral clock; addresses are assumed not to be the literal strings 'global'/'ip'; rule lists non-empty with non-negative intervals.",
    technique="Coq refinement proof (deque vs sliding-window log) + differential correspondence",
    design="5/C18"),
 }
